@@ -35,6 +35,16 @@ CHECKS = {
                  "No faults exist to inject for this property; this is the weakest honest use of the technique (said so in DESIGN.md)."),
         "note": "Trusted: the list model and the snapshot function. Operations are wrapped in a 3 s per-operation timer so that a non-returning call is a verdict, not a hang.",
     },
+    "C08": {
+        "engine": "simkit", "level": "exploration", "design_ref": "DESIGN.md section 4 (C08)",
+        "technique": "deterministic simulation of operation histories on one channel object: seeded scheduler of mutators, cache-populating reads and transmissions, channel/noise RandomState seams re-seeded from the plan, recompute-from-scratch reference model checked after every operation",
+        "text": ("Seeded exploration of update/read histories (4-27 operations) on plain and external-interference channels with 1-4 users and unequal antennas. Reads are operations "
+                 "in their own right because they populate the lazy caches whose invalidation the property is about. After every read and (every third) mutation all views (H, big_H, "
+                 "get_Hkl, get_Hk, big_H_no_ext_int, get_Hk_without_ext_int, pathloss) must equal the raw matrix scaled by the square root of the CURRENT path loss, rebuilt independently "
+                 "with np.repeat; transmissions must equal W^H (E x + last_noise) with E the model's current matrix, last_noise None iff noise_var is None, split per receiver by Nr. "
+                 "No faults exist to inject for this property."),
+        "note": "Trusted: the 15-line model (independent RandomState re-draw for randomize, np.repeat expansion). Tolerance 1e-11 relative on views, 1e-10 on matrix products.",
+    },
 }
 
 _PENDING = ["C03", "C06", "C08", "C10", "C13", "C14", "C15"]
